@@ -121,21 +121,27 @@ func (t *formatFMP4Track) write(sample *formatFMP4Sample) error {
 	if (!t.f.hasVideo || t.initTrack.Codec.IsVideo()) &&
 		!t.nextSample.IsNonSyncSample &&
 		(nextDTS-t.f.currentSegment.startDTS) >= t.f.ri.segmentDuration {
-		err = t.f.currentSegment.close()
-		if err != nil {
-			return err
-		}
-
 		oldestNTP, oldestDTS := nextSegmentStartingPos(t.f.tracks)
 
-		t.f.currentSegment = &formatFMP4Segment{
-			f:        t.f,
-			startDTS: oldestDTS,
-			startNTP: oldestNTP,
-			number:   t.f.nextSegmentNumber,
+		// a segment cannot start at the same position of the current one,
+		// otherwise it would get the same file name and overwrite it.
+		// this happens when the oldest next sample belongs to a track that lags behind;
+		// wait until it advances.
+		if oldestDTS > t.f.currentSegment.startDTS {
+			err = t.f.currentSegment.close()
+			if err != nil {
+				return err
+			}
+
+			t.f.currentSegment = &formatFMP4Segment{
+				f:        t.f,
+				startDTS: oldestDTS,
+				startNTP: oldestNTP,
+				number:   t.f.nextSegmentNumber,
+			}
+			t.f.currentSegment.initialize()
+			t.f.nextSegmentNumber++
 		}
-		t.f.currentSegment.initialize()
-		t.f.nextSegmentNumber++
 	}
 
 	return nil
